@@ -21,6 +21,8 @@ func c04Schema(argT, argT2 *hx.TRef) *hx.Schema {
 	green := hx.Sym("GREEN")
 	yes := hx.Bool(true)
 	seven := hx.I64(7)
+	ndDflt := hx.Map(hx.KV{Key: "y", V: hx.Bool(true)})
+	lndDflt := hx.List(hx.Map(hx.KV{Key: "y", V: hx.Bool(false)}, hx.KV{Key: "x", V: hx.F64(1.5)}))
 	s := &hx.Schema{Types: []*hx.TypeDef{
 		{Kind: hx.KEnum, Name: "E0", Values: []*hx.EnumValue{{Name: "RED"}, {Name: "GREEN"}}},
 		{Kind: hx.KInput, Name: "In1", Inputs: []*hx.Arg{
@@ -28,7 +30,9 @@ func c04Schema(argT, argT2 *hx.TRef) *hx.Schema {
 		{Kind: hx.KInput, Name: "In0", Inputs: []*hx.Arg{
 			{Name: "i", Type: hx.Named("Int")}, {Name: "s", Type: hx.Named("String"), Default: &dflt}, {Name: "r", Type: hx.Named("Int").NN()},
 			{Name: "e", Type: hx.Named("E0"), Default: &green}, {Name: "l", Type: hx.ListOf(hx.Named("Int").NN())}, {Name: "n", Type: hx.Named("In1")},
-			{Name: "ln", Type: hx.ListOf(hx.Named("In1"))}, {Name: "k", Type: hx.Named("ID")}}},
+			{Name: "ln", Type: hx.ListOf(hx.Named("In1"))}, {Name: "k", Type: hx.Named("ID")},
+			// members whose defaults are input objects themselves (filled in through In1's definition)
+			{Name: "nd", Type: hx.Named("In1"), Default: &ndDflt}, {Name: "lnd", Type: hx.ListOf(hx.Named("In1")), Default: &lndDflt}}},
 		// In2 is the input object whose registered Go type (c04In2G) has fields narrower than the
 		// declared scalars: a value that does not fit can not be delivered unaltered
 		{Kind: hx.KInput, Name: "In2", Inputs: []*hx.Arg{
@@ -38,6 +42,7 @@ func c04Schema(argT, argT2 *hx.TRef) *hx.Schema {
 	q := &hx.TypeDef{Kind: hx.KObject, Name: "Query", Fields: []*hx.Field{
 		{Name: "f", Type: hx.Named("String"), Args: []*hx.Arg{{Name: "a", Type: argT}}},
 		{Name: "z", Type: hx.Named("Int")},
+		{Name: "g", Type: hx.Named("String"), Args: []*hx.Arg{{Name: "i", Type: hx.Named("In0")}}},
 	}}
 	if argT2 != nil {
 		q.Fields[0].Args = append(q.Fields[0].Args, &hx.Arg{Name: "b", Type: argT2})
@@ -748,6 +753,10 @@ type c04Case struct {
 	// implementers declare the arguments in different orders (1: a,b first; 2: b,a first); root
 	// resolver strategy, the members are Go structs bound to their types
 	Iface int `json:"iface,omitempty"`
+	// ExtendIn1: the root first has In1 without its member z, serves a request that leaves In0's
+	// defaulted In1 members out, and is then given `extend input In1 { z: String = "zz" }` - before
+	// the request of the case (every In1 object, written or filled in from a default, has z from then on)
+	ExtendIn1 bool `json:"extend_in1,omitempty"`
 }
 
 // embedVars replaces some leaves of a literal by variables (nested channel); returns the new
@@ -811,6 +820,7 @@ func embedVars(t *rapid.T, s *hx.Schema, tr *hx.TRef, w hx.Val, defs *[]string, 
 func genCaseC04(t *rapid.T) *c04Case {
 	c := &c04Case{ArgT: genArgType(t, "T"), Strat: rapid.SampledFrom([]string{"R", "A", "X"}).Draw(t, "strategy")}
 	c.GoInputs = rapid.IntRange(0, 2).Draw(t, "goInputs") == 0
+	c.ExtendIn1 = !c.GoInputs && rapid.IntRange(0, 3).Draw(t, "extendIn1") == 0
 	c.Channel = rapid.SampledFrom([]string{"literal", "literal", "literal", "var", "var", "default", "default", "nested", "nested", "omitted", "unset"}).Draw(t, "channel")
 	c.Mode = rapid.SampledFrom([]string{"good", "bad", "bad"}).Draw(t, "mode")
 	s := c04Schema(c.ArgT, nil)
@@ -982,9 +992,14 @@ func genCaseC04(t *rapid.T) *c04Case {
 
 func (c *c04Case) world() (*Case, *hx.Schema) {
 	s := c04Schema(c.ArgT, c.ArgT2)
+	if c.ExtendIn1 {
+		zz := hx.Str("zz")
+		in1 := s.Type("In1")
+		in1.Inputs = append(in1.Inputs, &hx.Arg{Name: "z", Type: hx.Named("String"), Default: &zz})
+	}
 	g := &hx.Graph{Root: 0, Nodes: []*hx.Node{
 		{ID: 0, Type: "", F: map[string]hx.Val{"query": hx.Ref(1)}},
-		{ID: 1, Type: "Query", F: map[string]hx.Val{"f": hx.Str("ok"), "z": hx.I32(5)}},
+		{ID: 1, Type: "Query", F: map[string]hx.Val{"f": hx.Str("ok"), "z": hx.I32(5), "g": hx.Str("ok")}},
 	}}
 	if c.Iface > 0 {
 		ab := []*hx.Arg{{Name: "a", Type: c.ArgT}, {Name: "b", Type: c.ArgT2}}
@@ -1123,7 +1138,7 @@ func TestC04(t *testing.T) {
 	run := hx.NewRun("C04")
 	defer run.Flush()
 	classes := func(c *c04Case, verdict string, invoked bool) (bool, []string) {
-		cl := []string{"channel=" + c.Channel, "strategy=" + c.Strat, "verdict=" + verdict, "base=" + c.ArgT.BaseName(), fmt.Sprintf("go-inputs=%v", c.GoInputs), fmt.Sprintf("parsed-request-resolved-before=%v", len(c.Prime) > 0), fmt.Sprintf("on-interface-members-with-reordered-arguments=%v", c.Iface > 0),
+		cl := []string{"channel=" + c.Channel, "strategy=" + c.Strat, "verdict=" + verdict, "base=" + c.ArgT.BaseName(), fmt.Sprintf("go-inputs=%v", c.GoInputs), fmt.Sprintf("parsed-request-resolved-before=%v", len(c.Prime) > 0), fmt.Sprintf("on-interface-members-with-reordered-arguments=%v", c.Iface > 0), fmt.Sprintf("input-type-extended-after-first-use=%v", c.ExtendIn1),
 			c.ArgT.BaseName() + "/" + verdict + "/" + c.Channel}
 		if invoked {
 			cl = append(cl, "resolver-invoked")
